@@ -175,3 +175,7 @@ LIT_REPLAY = '''  const int n = XT_N; sat_core sat; long xinf = 62;
   }
   observed = show_matrix(th->_dists, n) + " ret=" + std::to_string(ret) + why; required = "conflict iff negative cycle; otherwise the exact closure with the constraint enforced";
 '''
+
+
+# what the evidence file says is NOT decided by this module, and what it assumes
+INFO = {'not_under_contract': ['rdl_theory', 'idl_theory::new_var (matrix growth), check(), the re-propagation of registered undecided constraints after an edge step', 'pop (covered under C08)'], 'assumptions': ['predecessor walks terminate (acyclic predecessor rows): precondition of the propagate(const lit&) job', 'link invariant (every ghost edge is the enforced constraint of its pair) holds initially: it is kept by propagate(const lit&), restored with the snapshot by pop']}
